@@ -2126,7 +2126,10 @@ def compare_model(corpus, line, impl_text, model_text):
         iv = o.canon(msg) if o.D is not None else ref_decode(msg, o.E)
     except (DebugParseError, RefError) as e:
         return "implementation output not understood: %s" % e
-    if m["value"] is not None:
+    if m["value"] is not None and o.D is not None:
+        # (quiet lines carry no rendering: the implementation's value is only known through its re-encoding
+        # E, which loses what pilota's encoder loses -- e.g. -0.0 map values, F-05a -- so there the bytes
+        # E are compared below, not the value)
         d = compare(iv, m["value"])
         if d:
             return "value differs at " + d
@@ -2143,7 +2146,7 @@ def compare_model(corpus, line, impl_text, model_text):
 
 # what the model runner understands beyond `dec` / `merge` on corpus messages (the pb builder flips
 # these when the runner learns more); decq / mergeq are sent to the model as dec / merge
-MODEL_SUPPORTS = dict(wrappers=False, declen=True, lendelim=True)
+MODEL_SUPPORTS = dict(wrappers=True, declen=True, lendelim=True)
 MODEL_EDV_ARGS = ["--edv"]        # extra runner arguments for the pb-encode-default-value build
 
 
